@@ -152,5 +152,20 @@ PROPS["C11"] = dict(
     assumptions=["system libogg 1.3.5 is correct"],
 )
 
+PROPS["C12"] = dict(
+    engine="rc", engine_name="rc-tape", sources=["props/c12.cpp"], level="fault_enumeration", design_ref="3.13", tape_scale=6,
+    quick=dict(cases=80), thorough=dict(cases=600),
+    technique="fault injection with complete enumeration per generated scenario: every callback invocation index x {read error, premature zero read, seek -1, tell -1, one-byte reads} x {one-shot, persisting}; oracle on return codes, close accounting, work budget and bit-exact recovery",
+    level_text="Each case is a generated scenario (1..2 links, encoder or synthetic; open, then 1..6 calls among ov_read_float, ov_read, the seeks, a lapped seek, ov_halfrate). The scenario is run fault-free to count its callback "
+               "invocations n; then the whole fault space (n x 9 fault plans) is executed. A hard fault observed during a call must make that call fail (reads may also return end of file or unchanged data); one-byte reads must change "
+               "nothing; the close callback never runs before ov_clear and never for a failed open, which must leave the handle zeroed; no call may exceed the callback budget; after the fault, with working callbacks, "
+               "ov_pcm_seek to generated positions must succeed with exact tell and bit-identical audio.",
+    level_note="exhaustive over the fault index space of each generated scenario, not over scenarios. A seek fault at the very first seek callback is the library's seekability probe (documented: the source is then treated as a stream). "
+               "A premature zero read during open may legitimately look like a shorter file (no recovery requirement there).",
+    rule="case = scenario; evaluations counts scenarios; distinct_nontrivial counts (scenario, invocation index, fault kind, persistence) plans in which the library actually observed the fault (the failing callback was invoked)",
+    require_labels=["fault during open: open fails", "fault during ov_read_float", "fault during ov_pcm_seek", "fault during ov_raw_seek", "recovery seek and reads verified", "links=2"],
+    assumptions=["system libogg 1.3.5 is correct", "ground truth = standalone packet-level decode of each link"],
+)
+
 NOT_APPLICABLE = {}
 HOOK_COMMITS = []
